@@ -328,35 +328,35 @@ ADDENDA = {
            "blocks, and threshold probes at three scales (delta, delta/6, delta/60). Zero-occupancy base atoms, chains with longer names, and the DNA structure 6RS3 are among the quick inputs.",
     "C04": "Same widened variants and three-scale probes as C03.",
     "C05": "Presentation.tla also has InsertCodes (order-preserving renumbering that introduces insertion codes); some bases carry "
-           "unresolvable residue names so that base letters are detected from atoms; quick draws 140 behaviours. Every behaviour is extended by the format switches enabled at its end; a base with legacy atom names is included; presentations PDB cannot carry are marked undeliverable by the spec.",
-    "C06": "Corpus variants with abasic nucleotides (base letter '?') are included. Every seventh case is a list merged from two sources (entries alternate between label+auth and auth-only naming).",
+           "unresolvable residue names so that base letters are detected from atoms; quick draws 140 behaviours. Every behaviour is extended by the format switches enabled at its end; a base with legacy atom names is included; presentations PDB cannot carry are marked undeliverable by the spec. Presentation.tla has the variable records / action ToggleRecords: a text format with and without the records that describe the polymer (MODRES; entity, entity_poly with the canonical sequence, pdbx_struct_mod_residue) must give the same annotation; one base carries 4-thiouridines.",
+    "C06": "Corpus variants with abasic nucleotides (base letter '?') are included. Every seventh case is a list merged from two sources (entries alternate between label+auth and auth-only naming). Every third mapping is asked for its extended rows first; entries that spell a blank insertion code the external tools' way are optional (the case must be in order for some reading of them); corpus variants with residues N and N^A alike in name.",
     "C07": "The motif_extractor CLI is run plain and with --remove-isolated / --remove-pseudoknots in every combination; "
            "Trace_Elements derives the structure the tool must print and decompose.",
-    "C08": "Every third PDB rendering numbers its records from just below 10000 (five-digit serials). Three alternate locations with non-monotone occupancies, and model numbers that do not ascend in file order, are generated.",
+    "C08": "Every third PDB rendering numbers its records from just below 10000 (five-digit serials). Three alternate locations with non-monotone occupancies, and model numbers that do not ascend in file order, are generated. Clash chains (falling / rising occupancies: the lower atom of a clashing pair is never kept), alternate conformers written as a block after the next residue, and handles already used by an earlier reader call are part of the domain.",
     "C09": "Tables also use a blank chain identifier (PDB -> PDB paths, modelled in MC_PdbText with a negative control for the repaired "
            "TER column defect), model numbering from 0 and serials that end exactly at the limit (always through the splitter).",
     "C10": "Also: a 99 984-atom table with interleaved chains (serials run out during renumbering), row selections made after parsing, "
            "label_* names differing from the author names, and two-model files of which only one model exceeds the limits "
-           "(one trace case per model through splitter.main). Residues distinguished only by insertion codes at the 9999/10000 boundary are included; read-back of occupancy/B tolerates the 0.01 of the PDB columns.",
+           "(one trace case per model through splitter.main). Residues distinguished only by insertion codes at the 9999/10000 boundary are included; read-back of occupancy/B tolerates the 0.01 of the PDB columns. Half of the row selections are made after the caller asked can_write_pdb about the whole table; multi-model tables whose models are not congruent are generated.",
     "C11": "Synthetic placements include three donors of one base in contact with one phosphate; the C03 variants (insertion codes, "
-           "split residues, base-only residues) apply.",
+           "split residues, base-only residues) apply. Variants zeronum (a residue numbered 0 inside every chain) and noring (bases without the ring atoms behind the base-phosphate class); interactions touching a residue handed over in two blocks are judged for well-formedness and contact only.",
     "C12": "A tenth operation, convert_to_dot_bracket(None), is part of the specification and of every history family; every second "
            "history runs after an unrelated sibling object (same pairs, other sequence and length) was solved in the same process; "
            "structures with 5 and 6 mutually crossing stems are included. Sequences carry letters beyond ACGU.",
     "C13": "Structures include one with 13 regions (two-digit indices in the MILP's constraint names) and sequences with letters "
-           "beyond ACGU.",
+           "beyond ACGU. A four-stem chain whose conflict edges are found out of order is among the fixed structures.",
     "C14": "Emission points v2_fit / v2_fit_write_pdb (the PDB text of a table that had to be fitted) are observed; alternate seeds meet "
-           "their inputs in the opposite order and twin inputs (same component names, complete / without bases) share an interpreter. 4-thiouridines (base letter rests on a tie-break) are among the twin inputs.",
+           "their inputs in the opposite order and twin inputs (same component names, complete / without bases) share an interpreter. 4-thiouridines (base letter rests on a tie-break) are among the twin inputs. A structure with an 8-region conflict component and several hundred notations is observed; even repetitions ask a fresh mapping for its extended rows first.",
     "C15": "Consecutive residues exactly 2.4 A apart must be answered alike by all four readings (BoundaryAgree); tables with repeated "
-           "atom records form a second domain (DupDomain) judged for agreement only (DupFailing).",
+           "atom records form a second domain (DupDomain) judged for agreement only (DupFailing). Clause ChiCoverage: a standard nucleotide holding its glycosidic atoms has a chi in every reading; free nucleotides in chains of their own and PDB renderings numbered from just below 10000 are generated.",
     "C16": "For corpus structures the list rendered by Mapping2D3D.all_dot_brackets and the BpSeq's own list asked afterwards are "
            "validated too.",
     "C17": "CLI results are judged on an independent reading of the input file; generated mmCIF carries entity tables and nucleotide "
-           "ligands in a non-polymer entity; the pair family has a distance class zero (coincident atoms) and residues N / N^A. Occupancy splits that are inexact in binary and symmetry mates that print alike in the CSV (trace kind csvcount) are included.",
+           "ligands in a non-polymer entity; the pair family has a distance class zero (coincident atoms) and residues N / N^A. Occupancy splits that are inexact in binary and symmetry mates that print alike in the CSV (trace kind csvcount) are included. Three-residue configurations with the middle residue in another chain give clashes between two chains in both orders.",
     "C18": "Trace kind 'stem' binds the inter-stem torsion of Mapping2D3D.calculate_inter_stem_parameters (closest endpoints, IUPAC "
            "dihedral of the documented centroids, swapping the stems keeps the value); clauses SameAtomsBothPaths, "
-           "ChiOnlyFromGlycosidicAtoms and TableRowPerResidue; quick corpus includes 1ehz, 4qln.pdb, 2HY9 and atom-drop variants. Corpus variants also rename residues to N and give residues a shared number with insertion codes.",
-    "C19": "Generated listings repeat lines and add coinciding lines (same residues, other label).",
+           "ChiOnlyFromGlycosidicAtoms and TableRowPerResidue; quick corpus includes 1ehz, 4qln.pdb, 2HY9 and atom-drop variants. Corpus variants also rename residues to N and give residues a shared number with insertion codes. Every second structure has been annotated before its torsions are read; references are computed from the coordinate fields.",
+    "C19": "Generated listings repeat lines and add coinciding lines (same residues, other label). DSSR documents with several models numbered off their positions are asked for by model number.",
     "C20": "The CLI is also run in place (output path = input path; MC_CifEdit models it, variant CliOpensOutputFirst is a negative "
-           "control); documents with several data blocks and mixed-case data names are generated. Alphabets that look like ranges are among the --values pools.",
+           "control); documents with several data blocks and mixed-case data names are generated. Alphabets that look like ranges are among the --values pools. Alphabets shorter than the column's distinct values must be refused.",
 }
